@@ -1,11 +1,11 @@
 package project
 
 import (
-	"sync/atomic"
 	"encoding/hex"
 	"fmt"
 	"sort"
 	"strings"
+	"sync/atomic"
 )
 
 // Facts is the abstract state of the verification schema as a flat map; both the projection of the
